@@ -77,16 +77,44 @@ fn append_trailing_statement_semicolon(
     docs: &mut Vec<DocIR>,
     node: &LuaSyntaxNode,
 ) {
-    if !ctx.config.output.preserve_statement_semicolon {
+    if !statement_keeps_trailing_semicolon(ctx, node) {
         return;
     }
-
     let Some(semicolon) = trailing_statement_semicolon_token(node) else {
         return;
     };
 
     docs.extend(token_left_spacing_docs(plan, Some(&semicolon)));
     docs.push(ir::source_token(semicolon));
+}
+
+/// Whether the statement has a trailing `;` that is printed: always when semicolons are preserved,
+/// and otherwise when dropping it would change the parse. Without its `;` a statement followed by
+/// `(…)` absorbs that line as call arguments (`local x = y;` `(f or g)()` → `local x = y(f or g)()`).
+pub(crate) fn statement_keeps_trailing_semicolon(ctx: &FormatContext, node: &LuaSyntaxNode) -> bool {
+    trailing_statement_semicolon_token(node).is_some_and(|semicolon| {
+        ctx.config.output.preserve_statement_semicolon || next_code_token_is_left_paren(&semicolon)
+    })
+}
+
+/// Whether the first token after `token` that is neither blank nor part of a comment is `(`.
+pub(crate) fn next_code_token_is_left_paren(token: &LuaSyntaxToken) -> bool {
+    let mut next = token.next_token();
+    while let Some(current) = next {
+        let is_blank = matches!(
+            current.kind().to_token(),
+            LuaTokenKind::TkWhitespace | LuaTokenKind::TkEndOfLine
+        );
+        let in_comment = current
+            .parent_ancestors()
+            .any(|node| node.kind() == LuaKind::Syntax(LuaSyntaxKind::Comment));
+        if !is_blank && !in_comment {
+            return current.kind().to_token() == LuaTokenKind::TkLeftParen;
+        }
+        next = current.next_token();
+    }
+
+    false
 }
 
 pub(crate) fn source_order_token_is_trailing_statement_semicolon(
